@@ -115,6 +115,7 @@ structure Var where
   defUnit : DUnit
   default : Val
   rule : SRule
+  stop : Option Date := none     -- the variable's `end` attribute (inclusive)
 deriving Repr, Inhabited, DecidableEq
 
 structure Sys where
@@ -902,13 +903,24 @@ def sortedPeriods (buf : Buffer) (v : String) : R (List Period) :=
     | .error e => .error e
     | .ok kps => .ok ((sortBy (fun a b => keyLe a.1 b.1) kps).map (fun kp => kp.2))
 
-/-- `values = buffer[str(period)]; array = tile(values, count // len(values)); set_input` -/
+/-- `variable.end is None or period.start.date <= variable.end` : the end date is INCLUSIVE;
+`ok false` = the input is ignored; the start of `ETERNITY` has no date (`ValueError`) -/
+def endGuard (var : Var) (q : Period) : R Bool :=
+  match var.stop with
+  | none => .ok true
+  | some e => if q.unit = .eternity then .error .other else .ok (decide (q.start.le e))
+
+/-- `values = buffer[str(period)]; array = tile(values, count // len(values));`
+`if variable.end is None or period.start.date <= variable.end: set_input` -/
 def callStep (si : SetInput) (buf : Buffer) (var : Var) (count : Nat) (store : Store) (q : Period) : R Store :=
   match alGet buf (var.name, q.text) with
   | none => .error .other
   | some values =>
     if values.length = 0 then .error .other
-    else si store var count q (tile (count / values.length) values)
+    else match endGuard var q with
+      | .error e => .error e
+      | .ok false => .ok store
+      | .ok true => si store var count q (tile (count / values.length) values)
 
 def flushVar (sys : Sys) (si : SetInput) (buf : Buffer) (e : Ent) (store : Store) (vname : String) : R Store :=
   match sys.var? vname with
@@ -1046,6 +1058,11 @@ def setInputDoc (sys : Sys) (si : SetInput) (count : Nat) (store : Store) (name 
     match parseKey pk with
     | .error _ => .error .other
     | .ok p =>
+      -- `if variable.end is not None and period.start.date > variable.end: return`
+      match endGuard var p with
+      | .error e => .error e
+      | .ok false => .ok store
+      | .ok true =>
       match toArrayDoc var value with
       | .error e => .error e
       | .ok arr =>
